@@ -625,7 +625,7 @@ func ruleGridPeriod(c *Ctx, rule string) {
 				}
 				n++
 				key := fmt.Sprintf("filter.(*Filter).Filter/tick-rearm#%d", n)
-				if loadOfField(st.Val, pkg, "Filter", divisor) {
+				if fieldValue(st.Val, pkg, "Filter", divisor, flt, 0) {
 					c.ok(rule, key, st.Pos(), "the tick is re-armed with "+divisor+", the spacing tubeIndex divides by")
 				} else {
 					c.bad(rule, key, st.Pos(), "the recycling tick is re-armed with something other than "+divisor+" (the tube spacing used by tubeIndex): the tick drifts across the tube grid, periodically steps over a tube without ending it, and that tube's pending match is emitted under the wrong diagonal or lost")
@@ -695,4 +695,61 @@ func ruleRunState(c *Ctx, rule string) {
 		}
 	}
 	c.bad(rule, key, scan.Pos(), "some path reaches the k-mer scan without assigning f.tubes a newly made slice: tube counts and query intervals left by the previous Filter call (the other strand) are mistaken for matches of this one, and planted repeats are lost or reported on wrong diagonals")
+}
+
+// fieldValue: v is a load of pkg.typ.field, possibly through a local or a
+// captured variable that was assigned that load.
+func fieldValue(v ssa.Value, pkg, typ, field string, outer *ssa.Function, depth int) bool {
+	if depth > 4 {
+		return false
+	}
+	if loadOfField(v, pkg, typ, field) {
+		return true
+	}
+	switch x := v.(type) {
+	case *ssa.Convert:
+		return fieldValue(x.X, pkg, typ, field, outer, depth+1)
+	case *ssa.Phi:
+		for _, e := range x.Edges {
+			if !fieldValue(e, pkg, typ, field, outer, depth+1) {
+				return false
+			}
+		}
+		return len(x.Edges) > 0
+	case *ssa.UnOp:
+		if x.Op != token.MUL {
+			return false
+		}
+		var cell ssa.Value = x.X
+		if fv, ok := cell.(*ssa.FreeVar); ok {
+			fn := fv.Parent()
+			idx := -1
+			for k, f := range fn.FreeVars {
+				if f == fv {
+					idx = k
+				}
+			}
+			cell = nil
+			for _, b := range outer.Blocks {
+				for _, ins := range b.Instrs {
+					if mc, ok := ins.(*ssa.MakeClosure); ok && mc.Fn == fn && idx >= 0 && idx < len(mc.Bindings) {
+						cell = mc.Bindings[idx]
+					}
+				}
+			}
+		}
+		if a, ok := cell.(*ssa.Alloc); ok {
+			all, n := true, 0
+			for _, r := range *a.Referrers() {
+				if st, ok := r.(*ssa.Store); ok && st.Addr == ssa.Value(a) {
+					n++
+					if !fieldValue(st.Val, pkg, typ, field, outer, depth+1) {
+						all = false
+					}
+				}
+			}
+			return all && n > 0
+		}
+	}
+	return false
 }
